@@ -203,17 +203,22 @@ func runC04(c *core.Ctx) {
 				s := startSvc(g.svc)
 				defer s.Stop()
 				sp := svcSpecs[g.svc]
-				ip, port := clientAddr(0)
-				for _, t := range seq {
+				// one source address per datagram: the amplification limiter of the UDP services
+				// (C10) admits four commands per source address and drops the rest before they
+				// are decoded, which is not what this property is about
+				for i, t := range seq {
+					ip, port := clientAddr(i)
 					s.SendUDP(serverIP, sp.port, ip, port, t.bytes)
 					lab.Quiesce()
 					c.Count("transitions", 1)
 				}
 				lab.Quiesce()
 				var got []string
-				for _, e := range eventsOf(0) {
-					if s := g.canon(e); s != "" {
-						got = append(got, s)
+				for i := range seq {
+					for _, e := range eventsOf(i) {
+						if s := g.canon(e); s != "" {
+							got = append(got, s)
+						}
 					}
 				}
 				want := expectedEvents(g, seq)
